@@ -256,8 +256,10 @@ class _FilePersistence(_ConcretePersistence):
                     # pylint: disable-next=unspecified-encoding
                     with open(self._data_filename, "r") as data_file:
                         self._process_lines(data_file, current_runs, target)
-                    os.unlink(self._data_filename)
-                    shutil.move(target.name, self._data_filename)
+                # the temporary file needs to be closed, i.e., completely written,
+                # before it is moved, which may copy it to another file system
+                os.unlink(self._data_filename)
+                shutil.move(target.name, self._data_filename)
             else:
                 # pylint: disable-next=unspecified-encoding
                 with open(self._data_filename, "r") as data_file:
